@@ -12,3 +12,5 @@ def check(ctx: Ctx) -> None:
     S.r_is_full(ctx)
     # the bound enforced is the size that was asked for - 0 included (shared with C15)
     S.r_limit_is_assigned_value(ctx, "R01.7")
+    # is_full tells the truth only while no slot is lost: a task forgotten by flush() inside its callback ends with a KeyError before its release
+    S.r_snapshot_forget(ctx, "R13.1")
